@@ -461,6 +461,37 @@ fn check_image(
       ));
     }
   }
+  // ---- C02 check 4: nothing that was rolled back (or committed and cleared)
+  // may still be in the log: a new writer would re-apply it
+  {
+    let mut allowed: BTreeSet<u32> = BTreeSet::new();
+    for a in &b.model.alts {
+      for t in &a.q {
+        allowed.insert(t.call);
+      }
+    }
+    let in_flight_call = if b.pos > 0 { log[..b.pos].iter().rev().find_map(|e| e.api.map(|a| a as u32)) } else { None };
+    let stale: Vec<&TOp> = on_disk
+      .iter()
+      .filter(|t| !allowed.contains(&t.call) && !(b.in_flight.is_some() && Some(t.call) == in_flight_call))
+      .collect();
+    if !stale.is_empty() && !published {
+      return Err(Violation::new(
+        &["C02"],
+        "discarded-op-recovered",
+        &site,
+        step,
+        format!(
+          "crash during {} after `{}` (image class {}): the surviving log still holds {:?}, which had been rolled back or committed before; the queue at that point was {}",
+          flight_kind,
+          last_prim,
+          class,
+          stale.iter().map(|t| t.op.short()).collect::<Vec<_>>(),
+          alts_short(&b.model.alts)
+        ),
+      ));
+    }
+  }
   // ---- model a following session starts from
   let next = if published {
     let adds = on_disk.iter().filter(|t| matches!(t.op, QOp::Add { .. })).count() as u32;
